@@ -31,11 +31,13 @@ def eval_case(case):
   import jax
   import jax.numpy as jp
   import mujoco
+  from brax import actuator
   from brax.generalized import dynamics, pipeline
   from brax.io import mjcf
   model = case['model']
   grav = case['grav']
-  xml = render.render(model, gravity=tuple(grav), dt=DT, actuators=motors(model), custom={'matrix_inv_iterations': 0})
+  acts = case.get('acts') or motors(model)
+  xml = render.render(model, gravity=tuple(grav), dt=DT, actuators=acts, custom={'matrix_inv_iterations': 0})
   q, qd = (np.array(case['q']), np.array(case['qd'])) if 'q' in case else c01.qvec(model, case['pose'])
   tau = np.array(case['tau'])
   sys = mjcf.loads(xml)
@@ -47,15 +49,17 @@ def eval_case(case):
       for j in range(1, len(l['stack']) + 1):
         jid = mujoco.mj_name2id(mj, mujoco.mjtObj.mjOBJ_JOINT, f'J{i}_{j}')
         dofadr.append(int(mj.jnt_dofadr[jid]))
-  ctrl = tau[dofadr] if dofadr else np.zeros(0)
+  ctrl = np.array(case['ctrl']) if 'ctrl' in case else (tau[dofadr] if dofadr else np.zeros(0))
 
   @jax.jit
   def terms(q, qd, tau, ctrl):
     st = pipeline.init(sys, q, qd)
     out = {'M': st.mass_mx, 'bias': dynamics.inverse(sys, st), 'passive': dynamics._passive(sys, st),
-           'smooth': dynamics.forward(sys, st, tau)}
+           'smooth': dynamics.forward(sys, st, actuator.to_tau(sys, ctrl, q, qd))}   # total smooth force incl. actuation
     st2 = pipeline.step(sys, st, ctrl)
-    out.update(q2=st2.q, qd2=st2.qd)
+    out.update(q2=st2.q, qd2=st2.qd, M2=st2.mass_mx)
+    st3 = pipeline.step(sys, pipeline.step(sys, st2, ctrl), ctrl)
+    out.update(q4=st3.q, qd4=st3.qd)
     return out
 
   try:
@@ -74,6 +78,13 @@ def eval_case(case):
          'smooth': (d.qfrc_passive - d.qfrc_bias + d.qfrc_actuator).tolist()}
   mujoco.mj_step(mj, d)
   ref.update(q2=d.qpos.tolist(), qd2=d.qvel.tolist())
+  mujoco.mj_forward(mj, d)
+  M2 = np.zeros((mj.nv, mj.nv))
+  mujoco.mj_fullM(mj, d, M2)
+  ref['M2'] = M2.tolist()
+  mujoco.mj_step(mj, d)
+  mujoco.mj_step(mj, d)
+  ref.update(q4=d.qpos.tolist(), qd4=d.qvel.tolist())
   return {'xml': xml, 'q': q.tolist(), 'qd': qd.tolist(), 'tau': tau.tolist(), 'brax': o, 'mj': ref}
 
 
@@ -175,6 +186,14 @@ def judge_rel(ctx, case, r):
   if mx(mj['qd2'], bx['qd2']) > 1e-7 * scale:
     ctx.violation(f'step: qd\' {bx["qd2"]} differs from the reference engine {mj["qd2"]}', info, tags_for(case['model'], 'step_qd'))
     return
+  if mx(mj['M2'], bx['M2']) > 1e-6 * scale:
+    ctx.violation(f'mass matrix carried after the step {bx["M2"]} is not the inertia matrix of the new configuration {mj["M2"]}',
+                  info, tags_for(case['model'], 'mass_matrix_after_step'))
+    return
+  if np.all(np.abs(mj['qd4']) < 1e3) and mx(mj['qd4'], bx['qd4']) > 1e-5 * scale * (1 + np.max(np.abs(mj['qd4']))):
+    ctx.violation(f'three steps: qd {bx["qd4"]} differs from the reference engine {mj["qd4"]}', info,
+                  tags_for(case['model'], 'step3_qd'))
+    return
   # q: quaternions up to sign
   q2b, q2m = np.array(bx['q2']), np.array(mj['q2'])
   qi = 0
@@ -239,6 +258,23 @@ def run(ctx):
     for l in c['model']['links']:
       tau += [0.0] * 6 if l['root'] == 'free' else [rr.uniform(-2, 2) for _ in l['stack']]
     c['tau'] = tau
+    # mixed actuators (motor / position / velocity with gear), several per joint possible; smooth force then comes
+    # from the actuators, so the externally supplied tau of dynamics.forward is what the actuators produce
+    sites = [(i, j) for i, l in enumerate(c['model']['links'], 1) if l['root'] != 'free' for j in range(1, len(l['stack']) + 1)]
+    acts = []
+    for _ in range(rr.randint(0, 4) if sites else 0):
+      i, j = rr.choice(sites)
+      kind = rr.choice(['motor', 'position', 'velocity'])
+      a = {'kind': kind, 'link': i, 'j': j, 'gear': rr.choice([1.0, 2.0, -1.5, 0.5])}
+      if kind == 'position':
+        a['kp'] = rr.choice([1.0, 5.0])
+      if kind == 'velocity':
+        a['kv'] = rr.choice([0.5, 3.0])
+      acts.append(a)
+    c['acts'] = acts or None
+    c['ctrl'] = [rr.uniform(-2, 2) for _ in acts] if acts else None
+    if not acts:
+      c.pop('ctrl')
     rel.append(c)
   for case, r in par.run('harness.drivers.c02', 'eval_case', rel):
     ctx.case(key=(r['xml'], tuple(r['q'])), nontrivial=True)
